@@ -257,11 +257,12 @@ func (ma *ModAnalysis) instrMods(f *ssa.Function, ins ssa.Instruction, ms *ModSe
 	case *ssa.UnOp:
 		if x.Op == token.ARROW && !ms.Fams["G:recv"] {
 			ms.add("G:recv")
+			ms.add("G:chan")
 			ch = true
 		}
 	case *ssa.Send, *ssa.Select:
-		if !ms.Fams["G:recv"] {
-			ms.add("G:recv")
+		if !ms.Fams["G:chan"] {
+			ms.add("G:chan")
 			ch = true
 		}
 	case *ssa.MapUpdate:
